@@ -145,8 +145,9 @@ def core_step(ss: StepState, hash_recv: bool = True):
 
 
 class ProbeNode(BaseNode):
-    def __init__(self, *a, idx: int = 0, trace: bool = True, hash_recv: bool = True, **kw):
+    def __init__(self, *a, idx: int = 0, trace: bool = True, hash_recv: bool = True, ts_shift: float = 0.0, **kw):
         super().__init__(*a, **kw)
+        self.ts_shift = float(ts_shift)  # > 0: the step moves step_state.ts forward (documented: "adjust to the time the sensor data was taken")
         self.idx = idx
         self.trace = trace
         self.hash_recv = hash_recv
@@ -177,6 +178,8 @@ class ProbeNode(BaseNode):
                 args += [i.seq, i.ts_sent, i.ts_recv, i.data.src, i.data.eps, i.data.seq, i.data.h]
             z = io_callback(_host_cb, jax.ShapeDtypeStruct((), jnp.int32), *args, ordered=True)
             out = out.replace(seq=out.seq + z)  # keeps the callback attached to the data flow
+        if self.ts_shift:
+            new_ss = new_ss.replace(ts=(new_ss.ts + jnp.float32(self.ts_shift)).astype(jnp.float32))
         return new_ss, out
 
 
